@@ -54,6 +54,7 @@ View == <<s.grid, s.agents, type, tl, IF Unlimited THEN 0 ELSE s.step_count>>
 Solo(i, m) == [k \in 1..K |-> IF k = i + 1 THEN m ELSE NOOP]
 Owned(g, i) == { <<p, Val(g, p)>> : p \in { q \in AllCells0 : Val(g, q) # 0 /\ OwnerOf(Val(g, q)) = i } }
 
+(* ---- properties of one state ---- *)
 (* C03 *) Protocol ==
   /\ type \in {FIRST, MID, LAST}
   /\ (type = FIRST) => s.step_count = 0
@@ -61,39 +62,12 @@ Owned(g, i) == { <<p, Val(g, p)>> : p \in { q \in AllCells0 : Val(g, q) # 0 /\ O
   /\ (type = LAST) => \A k \in 1..K : DiscountT(s, tl)[k] = 0
 (* C10 *) InitWellFormed == type = FIRST => WellFormedInstance(s)
 (* C04: the rules agree with the dynamics - an agent acting alone moves iff its move is allowed *)
-MaskSound == \A i \in Agents : \A m \in 1..4 :
+MaskSound == Unlimited => \A i \in Agents : \A m \in 1..4 :
   LegalAg(s, i, m) <=> PosOf(NextState(s, Solo(i, m)), i) = Shift(PosOf(s, i), m)
-(* C04: an allowed move either succeeds or yields to a higher id entering the same cell *)
-LegalNeverInvalid == \A a \in JointActions : LET t == NextState(s, a) IN
-  \A i \in Agents : (a[i + 1] # NOOP /\ LegalAg(s, i, a[i + 1])) =>
-     \/ PosOf(t, i) = Wants(s, a, i)
-     \/ /\ PosOf(t, i) = PosOf(s, i)
-        /\ \E j \in Agents : j > i /\ PosOf(t, j) = Wants(s, a, i) /\ PosOf(s, j) # PosOf(t, j)
 (* C04 *) MidHasMove == type = MID => \E i \in Agents : \E m \in 1..4 : LegalAg(s, i, m)
-(* C05 *) InvalidNoEffect == \A a \in JointActions : LET t == NextState(s, a) IN
-  \A i \in Agents : ~LegalAg(s, i, a[i + 1]) =>
-     /\ PosOf(t, i) = PosOf(s, i)
-     /\ Owned(t.grid, i) = Owned(s.grid, i)
-     /\ Reward100(s, t, i) = (IF Connected(s, i) THEN 0 ELSE -3)
-(* C05 *) AllInvalidChangesNothing == \A a \in JointActions :
-  (\A i \in Agents : ~Proposes(s, a, i)) => NextState(s, a) = [s EXCEPT !.step_count = @ + 1]
 (* C06 *) FeasibleAlways == Feasible(s)
 (* C06 *) CompletionIsSolution == AllConnected(s) => (FullSolution(s) /\ AllDone(s))
 (* C07 *) PhysOK == PhysInv(s)
-(* C07 *) Conservation == \A a \in JointActions : LET t == NextState(s, a) IN OccupancyLaw(s, t) /\ PathLaw(s, t)
-(* C09 *) Total == \A a \in JointActions : GridShape(NextState(s, a))
-(* C09: in every contested cell the highest id is the one that arrives, everybody else stays *)
-LowerIdYields == \A a \in JointActions : LET t == NextState(s, a) IN
-  \A i, j \in Agents : (i < j /\ Proposes(s, a, i) /\ Proposes(s, a, j) /\ Wants(s, a, i) = Wants(s, a, j)) =>
-     /\ PosOf(t, i) = PosOf(s, i)
-     /\ \E w \in Agents : w >= j /\ PosOf(t, w) = Wants(s, a, i)
-(* C09 *) UncontestedMoves == \A a \in JointActions : LET t == NextState(s, a) IN
-  \A i \in Agents : (Proposes(s, a, i) /\ \A j \in Agents \ {i} : Proposes(s, a, j) => Wants(s, a, j) # Wants(s, a, i))
-     => PosOf(t, i) = Wants(s, a, i) /\ Val(t.grid, PosOf(s, i)) = PathCode(i)
-(* C09 *) RewardRange == \A a \in JointActions : LET t == NextState(s, a) IN
-  \A i \in Agents : Reward100(s, t, i) \in {0, -3, 97}
-                    /\ (Reward100(s, t, i) = 97 <=> (~Connected(s, i) /\ Connected(t, i)))
-(* C09 *) DoneIsAbsorbing == AllDone(s) => \A a \in JointActions : NextState(s, a) = [s EXCEPT !.step_count = @ + 1]
 (* C11 *) TimeLimitExact == type # FIRST =>
   /\ (s.step_count >= tl => type = LAST)
   /\ (type = MID => s.step_count < tl)
@@ -102,4 +76,49 @@ LowerIdYields == \A a \in JointActions : LET t == NextState(s, a) IN
   /\ Obs(s).grid = s.grid /\ Obs(s).step_count = s.step_count
   /\ \A i \in Agents : Obs(s).action_mask[i + 1][1]
                        /\ (DoneAg(s, i) <=> (Connected(s, i) \/ \A m \in 2..5 : ~Obs(s).action_mask[i + 1][m]))
+
+(* ---- properties of one transition s --a--> t ---- *)
+(* C04: an allowed move either succeeds or yields to a higher id entering the same cell *)
+LegalNeverInvalid(a, t) ==
+  \A i \in Agents : (a[i + 1] # NOOP /\ LegalAg(s, i, a[i + 1])) =>
+     \/ PosOf(t, i) = Wants(s, a, i)
+     \/ /\ PosOf(t, i) = PosOf(s, i)
+        /\ \E j \in Agents : j > i /\ PosOf(t, j) = Wants(s, a, i) /\ PosOf(s, j) # PosOf(t, j)
+(* C05 *) InvalidNoEffect(a, t) ==
+  \A i \in Agents : ~LegalAg(s, i, a[i + 1]) =>
+     /\ PosOf(t, i) = PosOf(s, i)
+     /\ Owned(t.grid, i) = Owned(s.grid, i)
+     /\ Reward100(s, t, i) = (IF Connected(s, i) THEN 0 ELSE -3)
+(* C05 *) AllInvalidChangesNothing(a, t) ==
+  (\A i \in Agents : ~Proposes(s, a, i)) => t = [s EXCEPT !.step_count = @ + 1]
+(* C07 *) Conservation(a, t) == OccupancyLaw(s, t) /\ PathLaw(s, t)
+(* C09 *) Total(a, t) == GridShape(t)
+(* C09: in every contested cell the highest id is the one that arrives, everybody else stays *)
+LowerIdYields(a, t) ==
+  \A i, j \in Agents : (i < j /\ Proposes(s, a, i) /\ Proposes(s, a, j) /\ Wants(s, a, i) = Wants(s, a, j)) =>
+     /\ PosOf(t, i) = PosOf(s, i)
+     /\ \E w \in Agents : w >= j /\ PosOf(t, w) = Wants(s, a, i)
+(* C09 *) UncontestedMoves(a, t) ==
+  \A i \in Agents : (Proposes(s, a, i) /\ \A j \in Agents \ {i} : Proposes(s, a, j) => Wants(s, a, j) # Wants(s, a, i))
+     => PosOf(t, i) = Wants(s, a, i) /\ Val(t.grid, PosOf(s, i)) = PathCode(i)
+(* C09 *) RewardRange(a, t) ==
+  \A i \in Agents : Reward100(s, t, i) \in {0, -3, 97}
+                    /\ (Reward100(s, t, i) = 97 <=> (~Connected(s, i) /\ Connected(t, i)))
+(* C09 *) DoneIsAbsorbing(a, t) == AllDone(s) => t = [s EXCEPT !.step_count = @ + 1]
+
+(* every joint action of the current state, successor computed once; to find out which conjunct
+   fails, put `INVARIANT Tr_<name>` into the cfg *)
+ForAllSteps(P(_, _)) == Unlimited => \A a \in JointActions : P(a, NextState(s, a))
+TransitionsOK == ForAllSteps(LAMBDA a, t :
+  /\ LegalNeverInvalid(a, t) /\ InvalidNoEffect(a, t) /\ AllInvalidChangesNothing(a, t) /\ Conservation(a, t)
+  /\ Total(a, t) /\ LowerIdYields(a, t) /\ UncontestedMoves(a, t) /\ RewardRange(a, t) /\ DoneIsAbsorbing(a, t))
+Tr_LegalNeverInvalid == ForAllSteps(LegalNeverInvalid)
+Tr_InvalidNoEffect == ForAllSteps(InvalidNoEffect)
+Tr_AllInvalidChangesNothing == ForAllSteps(AllInvalidChangesNothing)
+Tr_Conservation == ForAllSteps(Conservation)
+Tr_Total == ForAllSteps(Total)
+Tr_LowerIdYields == ForAllSteps(LowerIdYields)
+Tr_UncontestedMoves == ForAllSteps(UncontestedMoves)
+Tr_RewardRange == ForAllSteps(RewardRange)
+Tr_DoneIsAbsorbing == ForAllSteps(DoneIsAbsorbing)
 =============================================================================
